@@ -374,14 +374,16 @@ theorem c11_sidecars_ignored (w : World) (config : Option Str) (searches : List 
   unfold DCtx.pathsStarSids
   exact FSL.pathsStarGo_nodes_eq d w { w with sidecars := sc } rfl config searches [] []
 
-/-- every Sid a star search yields has the type of one of the searches, is typed, and owns a path
-    that exists in the tree -/
+/-- every Sid a star search yields has the type of one of the searches, is typed, owns a path
+    that exists in the tree, and (repaired `star_search_simple`, D25) its string is matched by the
+    string of that search: `re.match(glob2re(str(search)), str(sid))` -/
 theorem c11_results_typed (w : World) (config : Option Str) (searches : List Sid) (r : List Sid)
     (h : d.pathsStarSids w config searches = .ok r) :
-    ∀ x ∈ r, x.typed = true ∧ (∃ s ∈ searches, s.type = x.type) ∧
+    ∀ x ∈ r, x.typed = true ∧
+      (∃ s ∈ searches, s.type = x.type ∧ Find.globMatch d.ctx.env s.string x.string = .ok true) ∧
       ∃ p, w.pathExists p = true ∧ d.ctx.sidOfPath p config = .ok x := by
   intro x hx
-  obtain ⟨s, hs, h1, h2, h3⟩ := FSL.pathsStarGo_res d w config searches [] [] r h x hx
-  exact ⟨h1, ⟨s, hs, h2⟩, h3⟩
+  obtain ⟨s, hs, h1, h2, h3, h4⟩ := FSL.pathsStarGo_res d w config searches [] [] r h x hx
+  exact ⟨h1, ⟨s, hs, h2, h3⟩, h4⟩
 
 end C11
